@@ -131,6 +131,16 @@ def batch_preds(ops_upto, cfg):
             if len(buf[key]) >= bs:
                 flush(key)
         elif k in ("save", "save_all", "restart", "restart_nosave", "compact"):
+            if k == "restart_nosave" and cfg.get("durability", "immediate") == "immediate":
+                # nothing was flushed before the shutdown: the rows still in the buffers come back by WAL
+                # replay (which then drains them into batches)
+                for rows in buf.values():
+                    for r in rows:
+                        for v in r:
+                            if v[0] == "f" and (int(v[1][5:], 16) >> 52) & 0x7FF == 0x7FF:
+                                P.add("wal.replay_of_nonfinite_float")
+                            if v[0] == "v" and any((int(x[5:], 16) >> 23) & 0xFF == 0xFF for x in v[1] if isinstance(x, str)):
+                                P.add("wal.replay_of_nonfinite_float")
             for key2 in list(buf):
                 flush(key2)
             if k == "compact":
